@@ -894,6 +894,49 @@ def own_equality_case(seed):
     return None
 
 
+def mapping_case(seed):
+    """a multiprofile built from a MAPPING ballot -> multiplicity (a Counter, a dict), and the copies the library itself builds that way
+    (`copy.deepcopy`, pickle: `__reduce__` hands `dict(self)` to the constructor): the number of voters and every multiplicity are
+    those of the voters counted; and a frozen ballot built from a ballot with only `name=` / only `meta=` given keeps the other
+    identifying attribute (round 8, C16-r8A / C16-r8B).  Returns a violation or None."""
+    import copy
+    import pickle
+    from collections import Counter as PyCounter
+
+    import pabutools.election as e
+
+    r = random.Random(seed)
+    ps = [e.Project("p%d" % i, 1) for i in range(r.randint(2, 5))]
+    kind = r.choice(["app", "card", "ord"])
+    distinct = []
+    for _ in range(r.randint(1, 3)):
+        sub = r.sample(ps, r.randint(1, len(ps)))
+        distinct.append(e.ApprovalBallot(sub, name="v", meta={"d": 1}) if kind == "app" else
+                        e.CardinalBallot({p: r.randint(1, 3) for p in sub}, name="v", meta={"d": 1}) if kind == "card" else e.OrdinalBallot(sub, name="v", meta={"d": 1}))
+    voters = [r.choice(distinct) for _ in range(r.randint(2, 7))]
+    frozen = [b.frozen() for b in voters]
+    want = PyCounter(frozen)
+    cls = {"app": e.ApprovalMultiProfile, "card": e.CardinalMultiProfile, "ord": e.OrdinalMultiProfile}[kind]
+    prof = {"app": e.ApprovalProfile, "card": e.CardinalProfile, "ord": e.OrdinalProfile}[kind](voters)
+    try:
+        M = prof.as_multiprofile()
+        built = {"Counter": cls(PyCounter(frozen)), "dict": cls(dict(want)), "deepcopy": copy.deepcopy(M), "pickle": pickle.loads(pickle.dumps(M)), "copy": copy.copy(M)}
+        for how, X in built.items():
+            if X.num_ballots() != len(voters) or any(X.multiplicity(b) != k for b, k in want.items()) or len(X) != len(want):
+                return {"what": f"{kind} multiprofile via {how}: {len(voters)} voters with multiplicities {sorted(want.values())}, but it reports "
+                                f"{X.num_ballots()} voters and multiplicities {sorted(X.multiplicity(b) for b in want)}", "case": None,
+                        "cfg": {"mapping_seed": seed}, "sig": {"kind": "mapping", "how": how}}
+        b = voters[0]
+        F_ = type(b.frozen())
+        f1, f2 = F_(b, name="renamed"), F_(b, meta={"given": 1})
+        if f1.name != "renamed" or dict(f1.meta) != {"d": 1} or f2.name != "v" or dict(f2.meta) != {"given": 1}:
+            return {"what": f"{F_.__name__}(ballot, name=...) has name {f1.name!r}, meta {f1.meta!r}; {F_.__name__}(ballot, meta=...) has name {f2.name!r}, "
+                            f"meta {f2.meta!r}; the ballot's own are 'v', {{'d': 1}}", "case": None, "cfg": {"mapping_seed": seed}, "sig": {"kind": "mapping", "how": "freeze_partial"}}
+    except Exception as ex:  # noqa: BLE001
+        return {"what": f"multiprofile from a mapping / copies: {type(ex).__name__}: {ex}", "case": None, "cfg": {"mapping_seed": seed}, "sig": {"kind": "mapping", "err": type(ex).__name__}}
+    return None
+
+
 def own_equality_stream(ctx, n):
     hits = 0
     for _ in range(n):
@@ -903,6 +946,13 @@ def own_equality_stream(ctx, n):
         if v is not None and hits < 3:
             hits += 1
             ctx.violations.append(v)
+        if _ % 3 == 0:
+            v = mapping_case(ctx.rng.getrandbits(48))
+            ctx.evaluations += 1
+            ctx.count("stream", "multiprofile from a mapping, copies, partially named frozen ballots")
+            if v is not None and hits < 5:
+                hits += 1
+                ctx.violations.append(v)
 
 
 def search(ctx, disagreements):
@@ -915,6 +965,9 @@ def search(ctx, disagreements):
 
 
 def replay(payload):
+    if payload.get("cfg", {}).get("mapping_seed") is not None:
+        v = mapping_case(payload["cfg"]["mapping_seed"])
+        return (False, "still fails: " + v["what"]) if v else (True, "multiprofiles built from mappings and copies count every voter on the replayed ballots")
     if payload.get("cfg", {}).get("own_equality_seed") is not None:
         v = own_equality_case(payload["cfg"]["own_equality_seed"])
         return (False, "still fails: " + v["what"]) if v else (True, "the multiprofile follows the library's own equality of the ballots on the replayed voters")
